@@ -9,6 +9,8 @@ relations of the statement (default spacing, reversal, additivity at every
 interior node, linearity); one 10^4-level column.
 Part 2 (c14_profiles.py): integrate_water_vapor, column_relative_humidity,
 pressure2height, standard_atmosphere.
+Part 3 (c14_repr.py): all of them for the same values in other number
+representations (float32, int32, int64, lists, scalar forms).
 """
 import functools
 import itertools
@@ -22,6 +24,7 @@ import numpy as np
 
 from checks import c14_exact as ex
 from checks import c14_profiles
+from checks import c14_repr
 
 PROP = "C14"
 LEVEL = "exploration"
@@ -41,7 +44,7 @@ RULE = ("integrate_column: every selection of 2..5 (quick) / 2..6 (thorough) "
         "columns of one rank-2 call, or one 10^4-level column. Non-trivial "
         "= some integrand involved is not constant along the integration "
         "axis. Cases are distinct by construction (products without "
-        "repetition). " + c14_profiles.RULE)
+        "repetition). " + c14_profiles.RULE + " " + c14_repr.RULE)
 ASSUMPTIONS = [
     "integrate_column is decided on integer / half-integer lattices where "
     "binary64 arithmetic is exact, plus two rescaled float lattices with a "
@@ -54,7 +57,7 @@ ASSUMPTIONS = [
     "fraction_pass)",
     "at most rank 3; coordinates 1-D, of the integrand's shape, or of size 1 "
     "on the other axes",
-] + c14_profiles.ASSUMPTIONS
+] + c14_profiles.ASSUMPTIONS + c14_repr.ASSUMPTIONS
 
 NODES = dict(quick=(0, 1, 2, 4, 7, 11), thorough=(0, 1, 2, 4, 7, 11, 16))
 MAXLEN = dict(quick=5, thorough=6)
@@ -323,7 +326,7 @@ def shards(tier, seed):
         out += [("grid", tier, n, k) for k in range(len(grids(tier, n)))]
         if n <= LIN_MAXLEN:
             out += [("lin", tier, n, k) for k in range(len(grids(tier, n)))]
-    return out + c14_profiles.shards(tier)
+    return out + c14_profiles.shards(tier) + c14_repr.shards(tier)
 
 
 def guarded(check, *args):
@@ -384,6 +387,8 @@ def run_lin(res, tier, n, k):
 def run_shard(shard):
     if shard[0] == "profiles":
         return c14_profiles.run_shard(shard)
+    if shard[0] == "repr":
+        return c14_repr.run_shard(shard)
     res = driver.ShardResult()
     STATS["calls"] = 0
     kindset = kinds()
@@ -420,6 +425,8 @@ def replay(case):
         if "y" in case:
             case = dict(case, y=tuple(case["y"]))
         bad = run_case(case, kinds())
+    elif case["part"] == "repr":
+        bad = c14_repr.run_case(case)
     else:
         bad = c14_profiles.run_case(case)
     if bad is None:
